@@ -809,6 +809,12 @@ class Server():
         Service pending responders
         """
         for ca, responder in list(self.reps.items()):
+            if (responder.closed and ca in self.servant.ixes and ca in self.reqs
+                    and self.servant.ixes[ca].txbs):
+                # app failed when called: earlier responses still queued on
+                # this connection go out before it is closed
+                continue
+
             if responder.closed or ca not in self.servant.ixes or ca not in self.reqs:
                 self.closeConnection(ca)  # also when removed by servant on socket error
                 continue
